@@ -17,8 +17,7 @@ def run(tier, replay=None):
     try:
         cache.model(rep, w, "MC_Cache_ring.cfg", "ring+resize, all histories, caps 1..3, 4 seqnos, 2 ids; exhaustive", 900)
         cache.drive_and_validate(rep, w, tier, PID, replay)
-        if tier == "thorough":
-            race(rep, w)
+        race(rep, w, 400000 if tier == "thorough" else 60000)
         rep.assumptions += ["capacity 0 / > 65535 and packets longer than BufSize are outside the stated domain",
                             "bytes are mapped back to content ids by the Go harness (observation function)"]
         return rep.finish()
@@ -26,10 +25,10 @@ def run(tier, replay=None):
         shutil.rmtree(w, ignore_errors=True)
 
 
-def race(rep, w):
+def race(rep, w, rounds):
     """one writer, many concurrent readers on the real cache under the race detector"""
     binp = C.go_build(w, "./cmd/cacherace", "cacherace", race=True)
-    rc, out, _ = C.run([binp], cwd=w, env=dict(C.GOENV, VERIF_SEED=str(C.seed())), timeout=900)
+    rc, out, _ = C.run([binp], cwd=w, env=dict(C.GOENV, VERIF_SEED=str(C.seed()), VERIF_ROUNDS=str(rounds)), timeout=900)
     rep.cov["race_run"] = out[-300:]
     if "DATA RACE" in out or "CORRUPT" in out:
         rep.violation("concurrent readers: " + out[-1500:], {"cmd": "cacherace", "seed": C.seed()})
